@@ -19,10 +19,17 @@ Reasons(r) ==
         CmpAll(name) == IF ~has(name) \/ (SetOf(fe[name]) = wantSet /\ Len(fe[name]) = Len(want)) THEN {} ELSE {<<name, "edit-differs">>}
         \* a front end that applies several edits keeps a conflict-free subset (C06/C18 decide which); every edit
         \* it keeps must be the rule's edit, and it keeps all of them when none intersect
+        \* ... and when some intersect, what it keeps is an accepted selection in the sense of Replace.tla (C06/C18): the kept
+        \* edits are pairwise disjoint and every edit left out intersects a kept one that does not start after it
+        sorted == SortByPos([k \in 1..Len(want) |-> Norm(want[k])])
+        KeptIdx(name) == { k \in 1..Len(sorted) : sorted[k] \in SetOf(fe[name]) }
         CmpSome(name) == IF ~has(name) \/ (/\ SetOf(fe[name]) \subseteq wantSet
                                             /\ (disjoint => SetOf(fe[name]) = wantSet)
                                             /\ (want = <<>> \/ fe[name] # <<>>))
-                         THEN {} ELSE {<<name, "edit-differs">>} IN
+                         THEN (IF has(name) /\ ~disjoint /\ Len(sorted) <= 10 /\ Cardinality(SetOf(sorted)) = Len(sorted)
+                                  /\ ~AcceptedSelection(sorted, KeptIdx(name))
+                               THEN {<<name, "kept-edits-are-not-an-accepted-selection">>} ELSE {})
+                         ELSE {<<name, "edit-differs">>} IN
     CmpAll("json") \cup CmpAll("lib_make_edit") \cup CmpAll("lsp_quickfix")
     \cup (IF fe.lib_replace = (IF want = <<>> THEN <<>> ELSE <<Norm(want[1])>>) THEN {} ELSE {<<"lib_replace", "edit-differs">>})
     \cup CmpSome("lib_replace_all") \cup CmpSome("lsp_fixall") \cup CmpSome("lsp_apply")
